@@ -16,6 +16,7 @@ macro_rules! verif_harness {
         #[kani::stub(mixtrics::metrics::Buckets::exponential, stubs::buckets_empty)]
         #[kani::stub(mixtrics::metrics::Buckets::linear, stubs::buckets_empty)]
         #[kani::stub(foyer_common::metrics::Metrics::noop, foyer_common::metrics::Metrics::verif_noop)]
+        #[kani::stub(std::alloc::dealloc, stubs::dealloc_noop)]
         #[kani::stub(std::backtrace::Backtrace::capture, stubs::backtrace_disabled)]
         #[kani::stub(alloc::fmt::format, stubs::fmt_format_empty)]
         #[kani::stub(core::panicking::panic_nounwind_fmt, stubs::panic_nounwind_fmt_stub)]
